@@ -26,6 +26,7 @@ TRUSTED_BASE_COMMON = [
     "extraction: ExtrOcamlBasic only (Extract Inductive bool/option/list/prod/unit/sumbool as that library defines; no Extract Constant; N/positive/nat stay inductive); OCaml 4.13.1",
     "correspondence harness: Rust drivers under /verif/harness (path deps on /repo, built from the current tree with --cfg rumqtt_verif), OCaml drivers under /verif/ocaml, generators and canonicalisation in /verif/tools",
     "tools/gen_params.py regexes that regenerate coq/Gen/Params.v from /repo sources",
+    "tools/gen_tables.py translator that regenerates coq/Gen/Tables.v (MQTT 5 property-id and reason-code tables of both crates) from /repo sources",
 ]
 
 
@@ -103,11 +104,14 @@ def coq_makefile():
 
 def coq_make(targets, timeout=3000):
     """Full .vo build (no -vos) of the given targets and everything they depend on."""
-    import gen_params
+    import gen_params, gen_tables
     with BuildLock():
         ok, msg = gen_params.generate()
         if not ok:
             return False, "gen_params: " + msg
+        ok, msg = gen_tables.generate()
+        if not ok:
+            return False, "gen_tables: " + msg
         ok, out = coq_makefile()
         if not ok:
             return False, out
